@@ -21,6 +21,10 @@ var props = []Prop{
 		ID: "C03", Level: "model_checking",
 		Harnesses: []HSpec{
 			{Dir: "internal/pkg/token", Fn: "VF_C03_chunks"},
+			{Dir: "internal/pkg/token", Fn: "VF_C03_kind", MaxStrLen: [2]int{10, 12}},
+			{Dir: "internal/pkg/token", Fn: "VF_C03_gocode"},
+			{Dir: "internal/pkg/token", Fn: "VF_C03_double"},
+			{Dir: "internal/pkg/token", Fn: "VF_C03_tokenize"},
 		},
 		Bounds:      []string{"Chunks: every string of <= 4 (quick) / 6 (thorough) code points over the full alphabet"},
 		Outside:     []string{"strings longer than the bound", "invalid UTF-8", "evaluation of emitted closures by the runtime"},
